@@ -55,6 +55,75 @@ func (e *Engine) errorValue(tag string) Value {
 
 func int64Term(v int64) *Term { return ConstBV(uint64(v), 64) }
 
+// concretize returns the constant a term is forced to by the path condition, when there is exactly one such value
+// (e.g. the position of the first newline in a string whose line structure the harness fixed by assumptions);
+// otherwise the term itself.
+func (e *Engine) concretize(st *State, t *Term) *Term {
+	if t.IsConst() || st == nil {
+		return t
+	}
+	if e.S.Check(st.pc, nil) != Sat {
+		e.S.EndModel()
+		return t
+	}
+	v := e.S.Values(map[string]*Term{"v": t})["v"]
+	e.S.EndModel()
+	c := ConstBV(v, t.Sort.Width)
+	r := e.S.Check(st.pc, Not(Eq(t, c)))
+	e.S.EndModel()
+	if r == Unsat {
+		return c
+	}
+	return t
+}
+
+// regexMatchTerm is the uninterpreted "pattern matches somewhere in / all of subject" predicate of the regexp model.
+func (e *Engine) regexMatchTerm(pat, subj StringVal) *Term {
+	fn := "M"
+	if pat.Atom != nil {
+		switch {
+		case pat.Pre == "^" && pat.Suf == "$":
+		case pat.Pre == "" && pat.Suf == "":
+			fn = "Munanchored"
+		case pat.Pre == "^" && pat.Suf == "":
+			fn = "Mprefix"
+		case pat.Pre == "" && pat.Suf == "$":
+			fn = "Msuffix"
+		default:
+			unsupported("regexp pattern %q + atom + %q", pat.Pre, pat.Suf)
+		}
+		pat.Pre, pat.Suf = "", ""
+	}
+	// the uninterpreted predicate agrees with the real regexp engine on every pair of concrete members of the domains
+	if pat.Atom != nil || subj.Atom != nil {
+		pcs, scs := pat.Cands, subj.Cands
+		if c, ok := pat.Concrete(); ok {
+			pcs = []string{c}
+		}
+		if c, ok := subj.Concrete(); ok {
+			scs = []string{c}
+		}
+		deco := map[string][2]string{"M": {"^(?:", ")$"}, "Munanchored": {"(?:", ")"}, "Mprefix": {"^(?:", ")"}, "Msuffix": {"(?:", ")$"}}[fn]
+		for _, pc := range pcs {
+			re, err := regexp.Compile(deco[0] + pc + deco[1])
+			if err != nil {
+				continue
+			}
+			for _, sc := range scs {
+				pid, sid := ConstInt(int64(e.intern(pc))), ConstInt(int64(e.intern(sc)))
+				e.axiom("Mc|"+fn+"|"+pc+"|"+sc, Eq(e.uf(fn, []*Term{pid, sid}, BoolSort), ConstBool(re.MatchString(sc))))
+			}
+		}
+	}
+	args := []*Term{e.strID(pat), e.strID(subj)}
+	r := e.uf(fn, args, BoolSort)
+	if fn != "M" {
+		// a full match is in particular a prefix, suffix and substring match
+		e.axiom("anch|"+r.String(), Implies(e.uf("M", args, BoolSort), r))
+	}
+	return r
+}
+
 func registerStubs(e *Engine) {
 	// regexp: compile keeps the pattern; matching is the uninterpreted predicate M(pattern, subject). A pattern that is
 	// "^" + atom + "$" is identified with the atom (that is what "fully anchored" means); an atom used as a pattern
@@ -85,28 +154,7 @@ func registerStubs(e *Engine) {
 				return ConstBool(r.MatchString(sc))
 			}
 		}
-		fn := "M"
-		if pat.Atom != nil {
-			switch {
-			case pat.Pre == "^" && pat.Suf == "$":
-			case pat.Pre == "" && pat.Suf == "":
-				fn = "Munanchored"
-			case pat.Pre == "^" && pat.Suf == "":
-				fn = "Mprefix"
-			case pat.Pre == "" && pat.Suf == "$":
-				fn = "Msuffix"
-			default:
-				unsupported("regexp pattern %q + atom + %q", pat.Pre, pat.Suf)
-			}
-			pat.Pre, pat.Suf = "", ""
-		}
-		args := []*Term{e.strID(pat), e.strID(subj)}
-		r := e.uf(fn, args, BoolSort)
-		if fn != "M" {
-			// a full match is in particular a prefix, suffix and substring match
-			e.axiom("anch|"+r.String(), Implies(e.uf("M", args, BoolSort), r))
-		}
-		return r
+		return e.regexMatchTerm(pat, subj)
 	}
 	e.intr["(*regexp.Regexp).MatchString"] = match
 	e.intr["github.com/prometheus/common/model.ParseDuration"] = func(e *Engine, st *State, cc *ssa.CallCommon, a []Value) Value {
@@ -121,6 +169,8 @@ func registerStubs(e *Engine) {
 		id := e.strID(sv)
 		ok := e.uf("PD_ok", []*Term{id}, BoolSort)
 		val := e.uf("PD_val", []*Term{id}, BV(64))
+		// the real parser reads unsigned digits: a parsed duration is never negative
+		e.axiom("PDnonneg|"+val.String(), Implies(ok, BVCmp("bvsge", val, ConstBV(0, 64))))
 		// the uninterpreted parser agrees with the real one on every concrete member of the atom's domain
 		for _, c := range sv.Cands {
 			cid := ConstInt(int64(e.intern(c)))
@@ -179,7 +229,8 @@ func registerStubs(e *Engine) {
 		p, cur := bufOf(e, st, a[0])
 		sv := a[1].(StringVal)
 		if sv.Atom != nil {
-			unsupported("strings.Builder.WriteString of an atom")
+			// text of unknown content: the builder's result becomes an opaque string (see String)
+			cur = append(cur, OpaqueVal{Tag: "atomchunk", Data: sv})
 		}
 		for _, b := range sv.Bytes {
 			cur = append(cur, b)
@@ -209,12 +260,21 @@ func registerStubs(e *Engine) {
 		_, cur := bufOf(e, st, a[0])
 		bs := make([]*Term, len(cur))
 		for i, v := range cur {
+			if _, isChunk := v.(OpaqueVal); isChunk {
+				e.opaqueSeq++
+				return StringVal{Atom: ConstInt(int64(500000 + e.opaqueSeq)), Others: 1}
+			}
 			bs[i] = asTerm(v)
 		}
 		return StringVal{Bytes: bs}
 	}
 	e.intr["(*strings.Builder).Len"] = func(e *Engine, st *State, cc *ssa.CallCommon, a []Value) Value {
 		_, cur := bufOf(e, st, a[0])
+		for _, v := range cur {
+			if _, isChunk := v.(OpaqueVal); isChunk {
+				unsupported("strings.Builder.Len after writing an atom")
+			}
+		}
 		return ConstBV(uint64(len(cur)), 64)
 	}
 	e.intr["(*strings.Builder).Reset"] = func(e *Engine, st *State, cc *ssa.CallCommon, a []Value) Value {
@@ -233,7 +293,16 @@ func registerStubs(e *Engine) {
 		for i := len(sv.Bytes) - 1; i >= 0; i-- {
 			res = Ite(Eq(sv.Bytes[i], c), ConstBV(uint64(i), 64), res)
 		}
-		return res
+		return e.concretize(st, res)
+	}
+	e.intr["internal/bytealg.CountString"] = func(e *Engine, st *State, cc *ssa.CallCommon, a []Value) Value {
+		sv := a[0].(StringVal)
+		c := asTerm(a[1])
+		res := ConstBV(0, 64)
+		for _, b := range sv.Bytes {
+			res = BVBin("bvadd", res, Ite(Eq(b, c), ConstBV(1, 64), ConstBV(0, 64)))
+		}
+		return e.concretize(st, res)
 	}
 	e.intr["(*strings.Builder).Grow"] = func(e *Engine, st *State, cc *ssa.CallCommon, a []Value) Value { return nil }
 }
